@@ -30,6 +30,38 @@ impl<'a> Read for FaultReader<'a> {
     }
 }
 
+/// delivers data[..k], then fails ONCE with `kind`, then goes on delivering data[k..] and a clean end: an error swallowed by the
+/// deserializer is not rediscovered by a later read
+struct OneShotReader<'a> { data: &'a [u8], k: usize, pos: usize, fired: bool, kind: ErrorKind, chunk: usize }
+impl<'a> Read for OneShotReader<'a> {
+    fn read(&mut self, buf: &mut [u8]) -> io::Result<usize> {
+        if self.pos == self.k && !self.fired { self.fired = true; return Err(io::Error::new(self.kind, "injected one-shot fault")); }
+        if buf.is_empty() || self.pos >= self.data.len() { return Ok(0); }
+        let lim = if self.fired { self.data.len() } else { self.k };
+        let n = self.chunk.max(1).min(buf.len()).min(lim - self.pos);
+        buf[..n].copy_from_slice(&self.data[self.pos..self.pos + n]);
+        self.pos += n;
+        Ok(n)
+    }
+}
+
+fn read_oneshot(tgt: &str, data: &[u8], k: usize, kind: ErrorKind, chunk: usize) -> String {
+    let rd = OneShotReader { data, k, pos: 0, fired: false, kind, chunk };
+    std::panic::catch_unwind(std::panic::AssertUnwindSafe(|| match tgt {
+        "value" => match serde_json::from_reader::<_, Value>(rd) { Ok(v) => format!("V{}", enc(&v)), Err(e) => show_io(&e) },
+        "ignored" => match serde_json::from_reader::<_, IgnoredAny>(rd) { Ok(_) => "U".into(), Err(e) => show_io(&e) },
+        "pair" => match serde_json::from_reader::<_, (i32, i32)>(rd) { Ok(_) => "T".into(), Err(e) => show_io(&e) },
+        "map" => match serde_json::from_reader::<_, std::collections::BTreeMap<String, Vec<i64>>>(rd) { Ok(_) => "T".into(), Err(e) => show_io(&e) },
+        "skip" => match serde_json::from_reader::<_, OnlyA>(rd) { Ok(_) => "T".into(), Err(e) => show_io(&e) },
+        #[cfg(feature = "rv")]
+        "raw" => match serde_json::from_reader::<_, Box<serde_json::value::RawValue>>(rd) { Ok(v) => format!("R{}", hexf(v.get().as_bytes())), Err(e) => show_io(&e) },
+        _ => "?".into(),
+    })).unwrap_or("PANIC".into())
+}
+/// a struct with one known field: everything else in the object is skipped (ignore_value)
+#[derive(serde::Deserialize)]
+struct OnlyA { #[allow(dead_code)] #[serde(default)] a: Option<i32> }
+
 fn show_io(e: &serde_json::Error) -> String {
     if e.classify() == serde_json::error::Category::Io { format!("IO:{}", e.io_error_kind().map(kind_name).unwrap_or("?".into())) } else { show_err(e) }
 }
@@ -56,6 +88,12 @@ fn read_fault(tgt: &str, data: &[u8], k: usize, kind: ErrorKind, sizes: Vec<usiz
     (o, delivered.get())
 }
 
+fn read_fault_skip(data: &[u8], k: usize, _kind: ErrorKind) -> (String, bool) {
+    // the same k bytes followed by a clean end of input
+    let o = std::panic::catch_unwind(std::panic::AssertUnwindSafe(|| match serde_json::from_reader::<_, OnlyA>(&data[..k]) { Ok(_) => "T".to_string(), Err(e) => show_io(&e) })).unwrap_or("PANIC".into());
+    (o, false)
+}
+
 pub fn emit_read(sink: &mut Sink, cfg: &str, doc: &[u8], r: &mut Rng, tag: &str, typed: bool) {
     for k in 0..=doc.len() {
         let (kn, kind) = *r.pick(KINDS);
@@ -71,6 +109,18 @@ pub fn emit_read(sink: &mut Sink, cfg: &str, doc: &[u8], r: &mut Rng, tag: &str,
             let op = if typed { "rfaultt" } else { "rfault" };
             let class = if o.starts_with("IO:") { "io" } else if o.starts_with("E:") { "error-before-fault" } else { "other" };
             sink.case(op, &[cfg, tgt, kn, &k.to_string(), &hexf(doc)], &format!("{}|{}|{}", o, oe, d as u8), &format!("{}:{}:{}", tag, tgt, class), k > 0);
+            // the same fault delivered ONCE (the reader recovers afterwards): it must not be swallowed
+            if k < doc.len() && matches!(*tgt, "value" | "ignored" | "pair" | "map" | "raw") {
+                let o1 = read_oneshot(tgt, doc, k, kind, 1 + (intr as usize % 5));
+                let class1 = if o1.starts_with("IO:") { "io" } else if o1.starts_with("E:") { "error-before-fault" } else { "other" };
+                sink.case(if typed { "rfaultt1" } else { "rfault1" }, &[cfg, tgt, kn, &k.to_string(), &hexf(doc)], &format!("{}|{}|1", o1, oe), &format!("{}:oneshot:{}:{}", tag, tgt, class1), k > 0);
+            }
+        }
+        if typed && k < doc.len() {
+            // skipped content under a one-shot fault: an object with unknown fields read into a struct with one known field
+            let (oe, _) = read_fault_skip(doc, k, kind);
+            let o1 = read_oneshot("skip", doc, k, kind, 1 + (intr as usize % 5));
+            sink.case("rfaultt1", &[cfg, "skip", kn, &k.to_string(), &hexf(doc)], &format!("{}|{}|1", o1, oe), &format!("{}:oneshot:skip", tag), k > 0);
         }
     }
 }
@@ -283,7 +333,7 @@ pub fn run(sink: &mut Sink, thorough: bool, seed: u64) {
     let mut r = Rng::new(seed);
     let cfg = cfg_tag();
     let mut docs: Vec<Vec<u8>> = vec![];
-    for d in ["[1,2]", "[1,2,]", "[1,2,3]", " [ 1 , 2 ] ", "{\"a\":[1,2],\"b\":[]}", "\"\\u00e9\\ud83d\\ude00\"", "[1,]", "01", "null", "[[[[1]]]]x", "1.5e3", "{\"a\" 1}", "[\"a\",true]", "[[],[],[]]", "[[] ,[] , [] ]", "[1,true]", "[300,true]", "[1,2]", "[1]"] {
+    for d in ["[1,2]", "[1,2,]", "[1,2,3]", " [ 1 , 2 ] ", "{\"a\":[1,2],\"b\":[]}", "\"\\u00e9\\ud83d\\ude00\"", "[1,]", "01", "null", "[[[[1]]]]x", "1.5e3", "{\"a\" 1}", "[\"a\",true]", "[[],[],[]]", "[[] ,[] , [] ]", "{\"a\":1,\"x\":2.5e+3,\"y\":[1e5,-1E-2]}", "1e5", "-2.5E+10", "{\"z\":{\"q\":1e-7}}", "[1,true]", "[300,true]", "[1,2]", "[1]"] {
         docs.push(d.as_bytes().to_vec());
     }
     for _ in 0..(if thorough { 1500 } else { 150 }) { let d = gen_doc(&mut r, 3); docs.push(if r.chance(1, 4) { mutate(&d, &mut r) } else { d }); }
